@@ -26,6 +26,7 @@ fn main() {
     let prop = args[1].clone();
     let tier = args[2].clone();
     let out = args[4].clone();
+    mcx::e3::SEED.store(args[3].parse().unwrap_or(0), std::sync::atomic::Ordering::Relaxed);
     mcx::session::install_quiet_panic_hook();
     let decls = mcx::interp::parse_decls(progs::DECLS_JSON);
     let mut rep = Report { prop: prop.clone(), tier: tier.clone(), ..Default::default() };
